@@ -22,6 +22,7 @@
 #include "stir/IO/read_from_file.h"
 #include "stir/SeparableGaussianImageFilter.h"
 #include <filesystem>
+#include <algorithm>
 #include <unistd.h>
 
 namespace rc7 {
@@ -109,6 +110,7 @@ struct Fixture
   std::vector<double> truth, start;
   shared_ptr<ProjDataInMemory> y_pd, a_pd, norm_pd;
   bool header_rounded = false; // the Interfile header rounded voxel size / origin (6 significant digits)
+  bool reference_with_case_switches = false; // see choose of the reference matrix in prepare_fixture
 
   long nvox() const { return P.nvox(); }
   long nbins() const { return P.nbins(); }
@@ -232,7 +234,7 @@ struct DataOpts
 inline void
 build_data(Fixture& F, const json& c, const DataSymmetriesForViewSegmentNumbers& symm, const DataOpts& o)
 {
-  F.P = vp::ExplicitP::build(F.pdi, F.image, F.mopts);
+  // F.P has been assembled by choose_reference_matrix()
   assign_subsets(F, symm, c["subsets"].get<int>());
   const std::size_t nb = std::size_t(F.nbins()), nv = std::size_t(F.nvox());
   F.use_add = c["use_add"].get<bool>();
@@ -557,7 +559,136 @@ projector_vs_explicit(const Fixture& F, const std::vector<double>& lam, std::str
                           "): projector ", got[b], " explicit ", want[b]);
         }
     }
-  return scale > 0 ? worst / scale : worst;
+  double res = scale > 0 ? worst / scale : worst;
+  // and the back projection of the (positive) measured data
+  {
+    shared_ptr<target_type> bim(F.image->get_empty_copy());
+    pair.get_back_projector_sptr()->back_project(*bim, *F.y_pd);
+    const std::vector<double> bgot = F.P.image_to_vec(*bim);
+    const std::vector<double> bwant = F.P.back(F.y);
+    const double bscale = vmax(bwant);
+    double bworst = 0;
+    std::size_t bw = 0;
+    for (std::size_t v = 0; v < bwant.size(); ++v)
+      if (std::fabs(bgot[v] - bwant[v]) > bworst)
+        {
+          bworst = std::fabs(bgot[v] - bwant[v]);
+          bw = v;
+        }
+    const double bres = bscale > 0 ? bworst / bscale : bworst;
+    if (bres > res)
+      {
+        res = bres;
+        where = vf::cat("voxel ", bw, " of the back projection of the data: projector ", bgot[bw], " explicit ", bwant[bw]);
+      }
+  }
+  return res;
+}
+
+//! The reference matrix of a case.
+//! Primary reference: the explicit matrix assembled row by row from a FRESH symmetry-free, cache-free matrix
+//! (explicit_p.h).  Ray tracing has rounding ties (a LOR end point exactly on a voxel boundary, grazing intersections of
+//! ~1e-7 voxel): then a row derived through a symmetry operation and the directly computed row differ in which voxel is
+//! entered first/last - a class the C03 property text screens out, not a defect.  The EM update is ill-conditioned
+//! w.r.t. such elements (a voxel seen only through a negligible element gets an O(1) update ratio), so for these
+//! geometries the reference is assembled, again row by row into a sparse matrix used in double precision, from a second
+//! FRESH cache-free matrix object with the symmetry switches of the case (what C04 does).  Which one was used is a
+//! labelled class.  Rows are compared element by element: same sparsity pattern and every element within 1e-4 RELATIVE
+//! (so also the negligible ones, including stored zeros) -> symmetry-free reference.
+inline vp::ExplicitP
+explicit_from_matrix(const Fixture& F, ProjMatrixByBin& m)
+{
+  vp::ExplicitP P;
+  P.pdi = F.pdi;
+  P.image = F.image;
+  F.image->get_regular_range(P.imin, P.imax);
+  P.nz = P.imax[1] - P.imin[1] + 1;
+  P.ny = P.imax[2] - P.imin[2] + 1;
+  P.nx = P.imax[3] - P.imin[3] + 1;
+  vp::ExplicitP::enumerate_bins(*F.pdi, P.bins);
+  P.rows.resize(P.bins.size());
+  ProjMatrixElemsForOneBin row;
+  for (std::size_t i = 0; i < P.bins.size(); ++i)
+    {
+      m.get_proj_matrix_elems_for_one_bin(row, P.bins[i]);
+      P.rows[i] = vp::ExplicitP::clip_row(P, row, &P.num_clipped);
+    }
+  return P;
+}
+
+inline bool
+same_rows(const vp::ExplicitP& A, const vp::ExplicitP& B)
+{
+  double mx = 0;
+  for (auto& r : A.rows)
+    for (auto& e : r)
+      mx = std::max(mx, e.second);
+  for (std::size_t b = 0; b < A.rows.size(); ++b)
+    {
+      std::vector<std::pair<long, double>> ra = A.rows[b], rb = B.rows[b];
+      std::sort(ra.begin(), ra.end());
+      std::sort(rb.begin(), rb.end());
+      if (ra.size() != rb.size())
+        return false;
+      for (std::size_t i = 0; i < ra.size(); ++i)
+        {
+          // element-wise RELATIVE agreement: the EM ratio and the exact-zero tests (sensitivity == 0) are sensitive to
+          // negligible elements (a voxel seen only through a 1e-7 intersection), so these must agree as well
+          if (ra[i].first != rb[i].first)
+            return false;
+          const double big = std::max(std::fabs(ra[i].second), std::fabs(rb[i].second));
+          if (std::fabs(ra[i].second - rb[i].second) > 1e-4 * big)
+            return false;
+        }
+    }
+  return true;
+}
+
+//! Builds the fixture of a case.  Returns "" or the reason why STIR rejects the geometry.
+//! `proj_note` is a triage aid (not an oracle): set when the projector of the case (symmetries, cache) does not
+//! reproduce the reference matrix in a forward and a back projection.
+inline std::string
+prepare_fixture(const json& c, json& cc, Fixture& F, const std::string& tmpdir, int max_z, const DataOpts& dopt, std::string& proj_note)
+{
+  cc = c;
+  F = Fixture();
+  try
+    {
+      build_geometry(F, cc, max_z);
+      canonicalise_grid_through_file(F, tmpdir);
+      shared_ptr<ProjMatrixByBinUsingRayTracing> symm_matrix = make_case_matrix(F.mopts, F.sym, 0);
+      symm_matrix->set_up(F.pdi, F.image);
+      F.P = vp::ExplicitP::build(F.pdi, F.image, F.mopts);
+      F.reference_with_case_switches = false;
+      if (cc["sym"].get<int>() != 0)
+        {
+          vp::ExplicitP Ps = explicit_from_matrix(F, *symm_matrix);
+          if (!same_rows(F.P, Ps))
+            {
+              F.P = Ps;
+              F.reference_with_case_switches = true;
+            }
+        }
+      build_data(F, cc, *symm_matrix->get_symmetries_ptr(), dopt);
+    }
+  catch (const stir_verif::AssertionFailure&)
+    {
+      throw;
+    }
+  catch (const std::exception& e)
+    {
+      return std::string("geometry rejected: ") + e.what();
+    }
+  if (vmax(F.y) == 0)
+    return "no counts at all (image outside the FOV of every bin)";
+  std::string where;
+  const double d = projector_vs_explicit(F, F.truth, where);
+  vf::stats().maxi("max rel diff projector of the case vs reference matrix (forward and back projection)", d);
+  proj_note.clear();
+  if (d > 1e-4)
+    proj_note = vf::cat(" [NOTE: the projector with symmetry switches ", cc["sym"].get<int>(), " / cache ", F.cache,
+                        " differs from the reference matrix by ", d, " of the maximum at ", where, ": system-matrix matter (C03/C04)]");
+  return "";
 }
 
 //! common geometry generator for C07/C08 (non-TOF, no tilt: budget; TOF sensitivities are C05's subject)
@@ -570,11 +701,23 @@ gen_geometry(Src& s, int size, json& c)
   so.allow_tof = false;
   so.allow_tilt = false;
   c["scanner"] = vg::gen_scanner(s, so);
+  // bias (not a restriction): most cases get >= 16 detectors per ring, half of them a multiple of 8 (all view symmetries
+  // possible, several balanced numbers of subsets)
+  const bool want8 = s.coin();
+  for (int tries = 0; tries < 6; ++tries)
+    {
+      const int ndet = c["scanner"]["ndet"].get<int>();
+      if (ndet >= 16 && (!want8 || ndet % 8 == 0))
+        break;
+      c["scanner"] = vg::gen_scanner(s, so);
+    }
   shared_ptr<Scanner> sc = vg::make_scanner(c["scanner"]);
   vg::PdiOpts po;
   po.max_span = 5;
   c["pdi"] = vg::gen_pdi(s, *sc, po);
   c["pdi"]["arccorr"] = false;
+  if (s.chance(2, 3))
+    c["pdi"]["views"] = c["scanner"]["ndet"].get<int>() / 2; // mostly no view mashing
   vg::ImageOpts io;
   io.max_xy = size < 40 ? 9 : 15;
   c["image"] = vg::gen_image(s, io);
